@@ -3,7 +3,8 @@ Model of the storage SCP tool: `storescp/src/store_sync.rs` and `store_async.rs`
 receive loops are the same code up to `.await`), on Unix.
 
 * text: `PrimitiveValue::to_str` (values separated by a backslash, each trimmed at the end of
-  spaces and NULs, re-joined) followed by `trim_end_matches('\0')` and `+ ".dcm"`;
+  spaces and NULs, re-joined) followed by `trim_end_matches('\0')`, replacement of path separators
+  and NUL by `_` (fix 08d5699) and `+ ".dcm"`;
 * `PathBuf::push` (an absolute argument REPLACES the path, otherwise it is joined, `..` and `.`
   components are kept as they are);
 * where `File::create` puts the file: a small model of path resolution (no symbolic links) over the
@@ -49,8 +50,16 @@ def toStrText (raw : Str) : Str :=
 
 def dcmExt : Str := ['.', 'd', 'c', 'm']
 
-/-- `sop_instance_uid.trim_end_matches('\0').to_string() + ".dcm"` (argument: the `to_str` text) -/
-def fileName (uid : Str) : Str := trimEndBy isNul uid ++ dcmExt
+/-- `.map(|c| if std::path::is_separator(c) || c == '\0' { '_' } else { c })` on Unix -/
+def sanitise (s : Str) : Str := s.map fun c => if c = '/' ∨ c = nul then '_' else c
+
+/-- the file name (argument: the `to_str` text of the Affected SOP Instance UID):
+`sop_instance_uid.trim_end_matches('\0')`, separators and NUL replaced by `_`, `+ ".dcm"`
+(fix 08d5699; `fileNameLegacy` is the code before it) -/
+def fileName (uid : Str) : Str := sanitise (trimEndBy isNul uid) ++ dcmExt
+
+/-- before fix 08d5699: `sop_instance_uid.trim_end_matches('\0').to_string() + ".dcm"` -/
+def fileNameLegacy (uid : Str) : Str := trimEndBy isNul uid ++ dcmExt
 
 /-! ## `PathBuf::push` and where the file lands -/
 
@@ -97,12 +106,8 @@ def locate (dirs : List Comps) (cwd : Comps) (p : Str) : Option Comps :=
 (as a decision procedure; `Props/C32` shows it equivalent to `∃ name, f = D ++ [name]`) -/
 def directlyInside (D f : Comps) : Bool := !f.isEmpty && f.dropLast == D
 
-/-! ### the proposed repair: a file name without separators -/
-
-/-- replace path separators and NUL by `_` -/
-def sanitise (s : Str) : Str := s.map fun c => if c = '/' ∨ c = nul then '_' else c
-
-def outPathFixed (dir uid : Str) : Str := push dir (sanitise (trimEndBy isNul uid) ++ dcmExt)
+/-- the path before fix 08d5699 (kept for the refutation theorems of `Props/C32`) -/
+def outPathLegacy (dir uid : Str) : Str := push dir (fileNameLegacy uid)
 
 /-! ## the receive loop -/
 
